@@ -20,7 +20,8 @@ RULE = ('random sets of 1..6 trajectories of mutually different lengths (includi
         'set equal the exact model (count matrices differ exactly by the straddling pairs). '
         'Non-trivial: >= 2 trajectories of different lengths.'
         ' Added classes: arrays of different integer widths with > 128 states, lumped objects under reordering (reference curves = those of the plain macro trajectories), one StateTraj object shared by a sequence of analyses (coring first), > 256 trajectories / zero-length members / > 64 states, a trajectory of > 2^16 frames cut at 65536/65537.'
-        ' Later: implied-timescale rows for lag lists in any order, the junction scenario for the sampling chain, equal-length sets also as one 2-d array, length sets whose first length is their mean.')
+        ' Later: implied-timescale rows for lag lists in any order, the junction scenario for the sampling chain, equal-length sets also as one 2-d array, length sets whose first length is their mean.'
+        ' Fifth/sixth batch: one trajectory vs the same plus a piece of lag frames, views of one buffer in permuted order, one narrow type with many states.')
 TRUSTED = ['float comparison of aggregated outputs at 1e-12']
 ASSUMPTIONS = ['labels within +-2^29']
 BATCH = 150
